@@ -319,8 +319,16 @@ func runC17(c *Ctx) {
 			ok := t.Op == "field" && t.Sym == "ID" && t.Owner == "p2p.Request" && len(dec) == 1 && T(ArgK(dec[0].Call, 0)).String() == t.Args[0].String()
 			c.Require("C17.R10 correlation", FuncKey(onReq)+": respond(reqID)", p.InstrPos(s.Call), "the response is created with the decoded request's ID", ok, t.String())
 		}
+		c.MinInstances("C17.R10 response-created", len(CallsIn(respond, "p2p.newResponseMessage")), 1)
 		for _, s := range CallsIn(respond, "p2p.newResponseMessage") {
 			t := T(ArgK(s.Call, 0))
+			if respond == onReq {
+				// the responding code written in the request handler itself: the ID is the decoded request's
+				dec := CallsIn(onReq, "(*p2p.Request).Decode")
+				ok := t.Op == "field" && t.Sym == "ID" && t.Owner == "p2p.Request" && len(dec) == 1 && T(ArgK(dec[0].Call, 0)).String() == t.Args[0].String()
+				c.Require("C17.R10 correlation", FuncKey(onReq)+": newResponseMessage(reqID)", p.InstrPos(s.Call), "the response is created with the decoded request's ID", ok, t.String())
+				continue
+			}
 			c.Require("C17.R10 correlation", FuncKey(respond)+": newResponseMessage(reqMsgID)", p.InstrPos(s.Call), "respond forwards its reqMsgID parameter as the response ID", t.Op == "param" && t.Sym == "p3", t.String())
 		}
 		// newResponseMessage stores param 0 into ID
